@@ -18,6 +18,7 @@ func init() {
 			ruleCheckIDs(c, r, "")
 			rulePadLen(c, r, "")
 			ruleCounting(c, r, "", "read")
+			ruleBlockReadOnlySize(c, r, "")
 			xzReader := c.Cone(nonNilFns(c.Func("", "NewReader"), c.Func("", "ReaderConfig.NewReader"), c.Func("", "Reader.Read"))...)
 			ruleIO(c, r, xzReader, "", true)
 			ruleEOF(c, r, nonNilFns(c.Func("", "NewReader"), c.Func("", "ReaderConfig.NewReader"), c.Func("", "Reader.Read")), xzReader, "")
